@@ -29,7 +29,7 @@ CHECKS = {
     "C08": ("pbt-values", "generated (unit pair, rep pair) instances from the gcd-unit model; exhaustive 8-bit x 8/16-bit operand pairs, enumerated edge grids and rapidcheck draws (equal / off-by-one / overflow-edge classes) vs 128-bit exact ordering, sum, difference, remainder; <=> under C++20; float instances with 4/8-ulp bands; negative probes for forms the policy must refuse",
             "Exploration: exact agreement on billions of operand pairs per run for the sampled instances, under ASan+UBSan; instances restricted to those the conversion policy accepts (model-predicted, and that prediction is itself checked by compiling).",
             "trusts 128-bit integer oracle and long double for the floating band; precondition: scaled operands fit the common rep", "4/C08"),
-    "C05": ("pbt-values", "generated (source rep, target rep, factor) instances over all 121 rep pairs; exhaustive 8/16-bit sources, stage-threshold neighbourhoods, nextafter neighbours of every target limit, NaN/inf/denormals/raw bit patterns via rapidcheck; exact staged pipeline oracle (128-bit) for integers, exact judgement of the library's scaled floating value for floating sources; UBSan float-cast-overflow",
+    "C05": ("pbt-values", "generated (source rep, target rep, factor) instances over all 121 rep pairs; exhaustive 8/16-bit sources, stage-threshold neighbourhoods, nextafter neighbours of every target limit, NaN/inf/denormals/raw bit patterns via rapidcheck; exact staged pipeline oracle (128-bit) for integers, exact judgement of the library's scaled floating value for floating sources; UBSan float-cast-overflow; plus a coverage-guided libFuzzer campaign over raw bit patterns of floating sources with the oracle inside the target",
             "Exploration of soundness: cleared => every stage in range and result exact / value-preserving; uncastable => reported lossy; integral-source overflow => some stage really out of range. One known finding (F9) excluded by construction with a pinned reproducer.",
             "trusts 128-bit/long double oracle; truncation answers only in the soundness direction; checkers' own UB on overflowing inputs (O1) is not asserted", "4/C05"),
     "C06": ("pbt-programs", "Hypothesis-generated (R1,R2,ratio) cases around every 2147-threshold compiled as static_assert blocks that must compile whatever the answer (totality) and answer as the model predicts (is_convertible/constructible/assignable, overload-resolution probe, common_type detection, QuantityPoint pairs); generated UBSan programs convert all |x|<=2147 for permitted integral cases; negative probes for unit-only as/in",
